@@ -103,4 +103,61 @@ def Placed.at (p : Placed) (idx : List Nat) : Rat := shiftAt p.offset p.shape p.
 def superpose (imgs : List Placed) (idx : List Nat) : Rat :=
   (imgs.map fun p => p.at idx).foldr (· + ·) 0
 
+/-! ### metadata of `Resize` and `equalize_voxel_size` (restoration/resize.py) -/
+
+/-- what `Resize.__call__` returns for an Image: the resized array with the metadata of the input
+(`type(img)(resized_img_array, **img.metadata())`): dimensions and origin are kept, the voxel size follows -/
+structure ImgMeta where
+  shape : List Nat
+  dims : List Rat
+  origin : List Rat
+
+def ImgMeta.voxelSize (m : ImgMeta) : List Rat := List.zipWith (fun (d : Rat) (n : Nat) => d / (n : Rat)) m.dims m.shape
+
+def resizeMeta (m : ImgMeta) (target : List Nat) : ImgMeta := { m with shape := target }
+
+def minRat : List Rat → Rat
+  | [] => 0
+  | [x] => x
+  | x :: xs => if x ≤ minRat xs then x else minRat xs
+
+/-- number of voxels `equalize_voxel_size` asks for along an axis of extent `d`: `int(floor(d / voxel_size + 0.5))`
+(after the `fix:` commit; before it `int(d / voxel_size)`, which loses a voxel when the float quotient of an exactly
+integral ratio falls below the integer) -/
+def equalizeCount (vs d : Rat) : Nat := (Rat.floor (d / vs + 1 / 2)).toNat
+
+/-- `equalize_voxel_size(image, voxel_size)`: target shape; `voxel_size = None` means the smallest voxel side -/
+def equalizeShape (m : ImgMeta) (vs : Option Rat) : List Nat :=
+  let v := vs.getD (minRat m.voxelSize)
+  m.dims.map (equalizeCount v)
+
+def equalizeMeta (m : ImgMeta) (vs : Option Rat) : ImgMeta := resizeMeta m (equalizeShape m vs)
+
+/-! ### multi-level coarsening exactly as coded -/
+
+/-- One coarsening step of `uniform_refinement` along one axis, as coded: `orig` is the extent of the ORIGINAL image
+(`image.img.shape[i]`, also at later levels), `cur` the current extent.
+`array = 0.5 * a[0::2]; array[0 : orig // 2] += 0.5 * a[1::2]` with numpy's rules: the left slice has
+`min(orig // 2, len(a[0::2]))` entries, the right-hand side `cur // 2`; equal lengths add entry-wise, a right-hand side
+of length 1 is broadcast, anything else raises `ValueError`. -/
+def coarsenCoded1 (orig cur : Nat) (g : Nat → Rat) : Except Err (Nat → Rat) :=
+  let l := min (orig / 2) (halfUp cur)
+  let s := cur / 2
+  if s = l then .ok fun j => g (2 * j) / 2 + (if j < l then g (2 * j + 1) / 2 else 0)
+  else if s = 1 then .ok fun j => g (2 * j) / 2 + (if j < l then g 1 / 2 else 0)
+  else .error .value
+
+/-- `levels` coarsening steps of a 1-D array of extent `n`; returns the final extent and array -/
+def coarsenCodedLevels (orig : Nat) : Nat → Nat → (Nat → Rat) → Except Err (Nat × (Nat → Rat))
+  | 0, cur, g => .ok (cur, g)
+  | l + 1, cur, g =>
+    match coarsenCoded1 orig cur g with
+    | .error e => .error e
+    | .ok g' => coarsenCodedLevels orig l (halfUp cur) g'
+
+/-- the ideal `levels`-fold pairwise averaging of an extent divisible by `2^levels` -/
+def coarsenIdeal : Nat → Nat → (Nat → Rat) → Nat × (Nat → Rat)
+  | 0, cur, g => (cur, g)
+  | l + 1, cur, g => coarsenIdeal l (halfUp cur) (coarsen1 cur g)
+
 end Darsia
